@@ -118,6 +118,7 @@ class Env:
     auth = True
     wf_ids = {}
     trust_deleted = []
+    fine = None            # the World whose processors are also suspended INSIDE their database calls
 
     @classmethod
     def boot(cls):
@@ -166,6 +167,7 @@ class Env:
                 self.user_id = 'user-%s' % trust_id
                 self.trusts = FakeTrusts()
         keystone.client_for_trusts = lambda trust_id: FakeKs(trust_id)
+        cls.install_write_hook()
         cls.booted = True
         # workflows, one per project (auth on) and one for the default project (auth off)
         for auth, proj in [(True, PROJECTS[0]), (True, PROJECTS[1]), (False, security.DEFAULT_PROJECT_ID)]:
@@ -175,6 +177,32 @@ class Env:
             wf = workflows.create_workflows(WF_TEXT % name)[0]
             cls.wf_ids[proj] = (wf.name, wf.id)
             auth_ctx.set_ctx(None)
+
+    @classmethod
+    def install_write_hook(cls):
+        """Suspension point INSIDE db_api.delete_cron_trigger / update_cron_trigger: right before the first DELETE /
+        UPDATE statement on cron_triggers_v2 of an advance_cron_trigger call is sent to the database, i.e. after the
+        call's SELECT (get_cron_trigger) and check_db_obj_access.  Hooked at the SQLAlchemy engine, so it does not
+        depend on how the function issues the statement (Core execute, ORM flush at commit, update_on_match)."""
+        import greenlet
+        from sqlalchemy import event
+        from mistral.db.sqlalchemy import base as b
+
+        def before_cursor_execute(conn, cursor, statement, parameters, context, executemany):
+            w = cls.fine
+            if w is None:
+                return
+            g = greenlet.getcurrent()
+            t = getattr(g, 'in_adv', None)
+            if t is None or getattr(g, 'wrote', True):
+                return
+            st = ' '.join(statement.split()).upper()
+            for kind, head in (('delete', 'DELETE FROM CRON_TRIGGERS_V2'), ('update', 'UPDATE CRON_TRIGGERS_V2')):
+                if st.startswith(head):
+                    g.wrote = True
+                    w._yield(('before_write', t.id, sec(t.next_execution_time), kind))
+                    return
+        event.listen(b.get_engine(), 'before_cursor_execute', before_cursor_execute)
 
     @classmethod
     def set_auth(cls, on):
@@ -233,7 +261,8 @@ class World:
         self.trig = {}          # key -> creation facts (id, project, input, params, wf, trust)
         self.created = []       # per key: ('ok', next, rem) | ('rejected', excname)
         self.procs = {}
-        self.saved_ctx = {}
+        self.saved_tls = {}     # per processor: mistral's thread-local storage (auth context, open DB session)
+        self.fine = bool(case.get('fine'))
         self.cur = {}           # proc -> snapshot object being processed
         self.starts = []        # recorded start_workflow calls
         self.events = []        # per step observation
@@ -250,10 +279,15 @@ class World:
         real_adv = self.orig[0]
 
         def adv(t):
-            i = w.g.getcurrent().proc
+            g = w.g.getcurrent()
+            i = g.proc
             w.cur[i] = t
             w._yield(('before_adv', t.id, sec(t.next_execution_time), t.remaining_executions))
-            res = real_adv(t)
+            g.in_adv, g.wrote = t, False
+            try:
+                res = real_adv(t)
+            finally:
+                g.in_adv = None
             w.last[i] = ('adv', t.id, bool(res))
             return res
 
@@ -283,10 +317,12 @@ class World:
         m['periodic'].advance_cron_trigger = adv
         m['rpc'].get_engine_client = lambda: Recorder()
         self.last = {}
+        Env.fine = self if self.fine else None
 
     def close(self):
         for i in list(self.procs):
             self._kill(i)
+        Env.fine = None
         self.m['periodic'].advance_cron_trigger, self.m['rpc'].get_engine_client = self.orig
         self.m['auth_ctx'].set_ctx(None)
 
@@ -325,30 +361,49 @@ class World:
             per.process_cron_triggers_v2(None, None)
             self._yield(('pass_end',))
 
+    def _tls_in(self, i):
+        """Processors are separate processes: each has its own mistral thread-local storage (the auth context and,
+        when it is suspended inside a database call, its open DB session / transaction)."""
+        from mistral_lib import utils as lib_utils
+        tl = lib_utils._th_loc_storage
+        mine = getattr(tl, 'storage', None)
+        st = self.saved_tls.get(i)
+        if st:
+            tl.storage = st
+        elif mine is not None:
+            del tl.storage
+        return mine
+
+    def _tls_out(self, i, mine):
+        from mistral_lib import utils as lib_utils
+        tl = lib_utils._th_loc_storage
+        self.saved_tls[i] = getattr(tl, 'storage', None)
+        if mine is not None:
+            tl.storage = mine
+        elif hasattr(tl, 'storage'):
+            del tl.storage
+
     def _switch(self, i):
-        """Run processor i until its next suspension point; the thread-local auth context is per processor."""
-        a = self.m['auth_ctx']
+        """Run processor i until its next suspension point."""
         g = self.procs[i]
-        a.set_ctx(self.saved_ctx.get(i))
+        mine = self._tls_in(i)
         try:
             at = g.switch()
         finally:
-            self.saved_ctx[i] = a.ctx() if a.has_ctx() else None
-            a.set_ctx(None)
+            self._tls_out(i, mine)
         return at
 
     def _kill(self, i):
         g = self.procs.pop(i, None)
         if g is not None and not g.dead:
-            a = self.m['auth_ctx']
-            a.set_ctx(self.saved_ctx.get(i))
+            mine = self._tls_in(i)
             try:
                 g.throw(Kill)
             except Kill:
                 pass
             finally:
-                a.set_ctx(None)
-        self.saved_ctx.pop(i, None)
+                self._tls_out(i, mine)
+        self.saved_tls.pop(i, None)
         self.cur.pop(i, None)
 
     def step(self, st):
@@ -396,7 +451,13 @@ class World:
         last = self.last.get(i)
         if was[0] == 'before_adv':
             k = self.key_of_id.get(was[1], -1)
+            if g.at[0] == 'before_write' and not g.dead:
+                # inside the database call: the row is SELECTed, the DELETE / UPDATE statement is not sent yet
+                return ('sel', i, k, True, was[2], g.at[3])
             return ('adv', i, k, bool(last and last[0] == 'adv' and last[2]), was[2])
+        if was[0] == 'before_write':
+            k = self.key_of_id.get(was[1], -1)
+            return ('wr', i, k, bool(last and last[0] == 'adv' and last[2]), was[2], was[3])
         if was[0] == 'before_start':
             if last and last[0] == 'start':
                 r = last[1]
@@ -506,7 +567,7 @@ def gen_case(rng):
 def choose_step(rng, w, case):
     """Adaptive schedule generation: look at the real rows to steer the clock towards due times."""
     view = w.db_view()
-    busy = [i for i, g in w.procs.items() if not g.dead and g.at[0] in ('before_adv', 'before_start')]
+    busy = [i for i, g in w.procs.items() if not g.dead and g.at[0] in ('before_adv', 'before_write', 'before_start')]
     nexts = [v[0] for v in view.values()]
     anything_due = any(n < Env.clock + 2 for n in nexts)
     r = rng.random()
@@ -622,15 +683,21 @@ def oracle(ctx, case, log):
     for k, t in trig.items():
         hist = [log['view0'].get(k)]
         consumed = []          # (occurrence, step index)
+        unmoved = {}           # occurrence -> kind of a write INSIDE a call that changed no row and still reported a win
         clock_before = case['t0']
+        call_clock = {}        # processor -> clock when it entered the database call it is suspended in
         for si, e in enumerate(log['steps']):
             prev, cur = hist[-1], e['view'].get(k)
+            ob = e['obs']
+            if ob[0] == 'sel':
+                call_clock[ob[1]] = clock_before
+            if ob[0] == 'wr' and ob[2] == k and ob[3] and cur == prev:
+                unmoved.setdefault(ob[4], ob[5])
             if cur != prev:
-                ob = e['obs']
                 if prev is None:
                     bad('row-reappears', 'trigger %d row reappears at step %d' % (k, si))
                 else:
-                    if not (ob[0] == 'adv' and ob[2] == k and ob[3]):
+                    if not (ob[0] in ('adv', 'wr') and ob[2] == k and ob[3]):
                         bad('other-row-modified', 'row of trigger %d changed %r -> %r by step %d %r which does not advance it'
                             % (k, prev, cur, si, ob))
                     consumed.append((prev[0], si))
@@ -638,13 +705,15 @@ def oracle(ctx, case, log):
                         if not cur[0] > prev[0]:
                             bad('next-not-forward', 'trigger %d next %s -> %s' % (k, prev[0], cur[0]))
                         else:
+                            # the writer computes the new time from its clock before the database call
+                            seen = call_clock.get(ob[1], clock_before) if ob[0] == 'wr' else clock_before
                             try:
-                                want = croniter_next(t['pattern'], max(clock_before, prev[0]))
+                                want = croniter_next(t['pattern'], max(seen, prev[0]))
                             except Exception:
                                 want = None
                             if want is not None and cur[0] != want:
                                 bad('next-not-pattern', 'trigger %d (%s) next %s -> %s at clock %s, pattern gives %s'
-                                    % (k, t['pattern'], prev[0], cur[0], clock_before, want))
+                                    % (k, t['pattern'], prev[0], cur[0], seen, want))
                         if prev[1] is None:
                             if cur[1] is not None:
                                 bad('count-changed', 'trigger %d without count gets remaining %r' % (k, cur[1]))
@@ -660,7 +729,15 @@ def oracle(ctx, case, log):
         lost = [o for kk, o in log['lost'] if kk == k]
         for o in sorted(set(s['snap_next'] for s in my)):
             n = sum(1 for s in my if s['snap_next'] == o)
-            if n > 1:
+            if n > 1 and o in unmoved:
+                # the property text (one execution per due occurrence) fails, and the second start comes from a
+                # processor that was between the SELECT and the DELETE / UPDATE of its call when another one won
+                bad('occurrence-twice:inside-' + unmoved[o],
+                    'trigger %d occurrence %s started %d times by processors %r: a processor that had selected the row '
+                    'inside %s_cron_trigger before another processor %sd it reported a modified row although its own %s '
+                    'changed nothing' % (k, o, n, [s['proc'] for s in my if s['snap_next'] == o], unmoved[o],
+                                         unmoved[o][:-1] if unmoved[o] == 'delete' else unmoved[o], unmoved[o].upper()))
+            elif n > 1:
                 bad('double-start', 'trigger %d occurrence %s started %d times' % (k, o, n))
             if o not in occs:
                 bad('start-without-occurrence', 'trigger %d started for %s but its row never left that time' % (k, o))
@@ -709,7 +786,7 @@ def nxt_table(case, log):
     tbl, bad, seen = [], [], set()
     for e in log['steps']:
         ob = e['obs']
-        if ob[0] != 'adv' or ob[2] not in log['trig']:
+        if ob[0] not in ('adv', 'sel') or ob[2] not in log['trig']:
             continue
         k, a = ob[2], max(e['clock'], ob[4])
         if (k, a) in seen:
@@ -761,6 +838,10 @@ def model_expr(case, log, tbl):
             ops.append('Read %s' % core.coq_nat(ob[1]))
         elif ob[0] == 'adv':
             ops.append('Adv %s %s' % (core.coq_nat(ob[1]), core.coq_nat(max(ob[2], 0))))
+        elif ob[0] == 'sel':
+            ops.append('Sel %s %s' % (core.coq_nat(ob[1]), core.coq_nat(max(ob[2], 0))))
+        elif ob[0] == 'wr':
+            ops.append('Wr %s' % core.coq_nat(ob[1]))
         elif ob[0] == 'start':
             ops.append('Start %s' % core.coq_nat(ob[1]))
         elif ob[0] == 'drop':
@@ -770,7 +851,7 @@ def model_expr(case, log, tbl):
         else:
             ops.append('Tick 0%N')
     tb = core.coq_list(['(%s, (%s, %s))' % (core.coq_nat(k), core.coq_N(a), core.coq_N(v)) for k, a, v in tbl])
-    return 'run_trace lookup_by_name %s %s %s (mk_rows %s) %s' % (core.coq_list([core.coq_nat(k) for k in keys]), tb, core.coq_N(case['t0']),
+    return 'run_trace lookup_by_name delete_reports_rowcount update_reports_match %s %s %s (mk_rows %s) %s' % (core.coq_list([core.coq_nat(k) for k in keys]), tb, core.coq_N(case['t0']),
                                                   core.coq_list(rows), core.coq_list(ops)), keys
 
 
@@ -790,8 +871,10 @@ def impl_trace(case, log, keys):
         ob = e['obs']
         if ob[0] == 'read':
             o = [1] + sorted(ob[2])
-        elif ob[0] == 'adv':
+        elif ob[0] in ('adv', 'wr'):
             o = [2, 1 if ob[3] else 0]
+        elif ob[0] == 'sel':
+            o = [4, 1]
         elif ob[0] == 'start':
             s = log['starts'][si]
             si += 1
